@@ -27,19 +27,21 @@ VARIABLES l,
           cids,       \* ids of the cache flushes of the flush that is being started
           alias,      \* [logged sub-request id -> id used by the specification]
           conf,       \* how many answers to the driver were seen leaving the command processor
-          msz         \* bytes of memory behind the DMA engine
-tvars == <<vars, l, line, nc, cids, alias, conf, msz>>
+          msz,        \* bytes of memory behind the DMA engine; 0 = a real memory system (platform traces)
+          names       \* port names of the run: [dmadst, memdst] (memdst "" = any memory controller)
+tvars == <<vars, l, line, nc, cids, alias, conf, msz, names>>
 
 ASSUME HWInit
 
 Ev == TraceLog[l]
 Is(e) == l <= N /\ Ev.e = e /\ l' = l + 1
-Keep == UNCHANGED <<line, nc, cids, alias, conf, msz>>
+Keep == UNCHANGED <<line, nc, cids, alias, conf, msz, names>>
 KeepBut(x) == UNCHANGED x
 
 InitMem(sz) == [a \in 0..(sz - 1) |-> 200 + (a % 50)]
 
 TInit == Init /\ l = 1 /\ line = 1 /\ nc = 0 /\ cids = {} /\ alias = <<>> /\ conf = 0 /\ msz = 0
+         /\ names = [dmadst |-> "", memdst |-> ""]
 
 TReset ==
   /\ Is("Reset")
@@ -49,12 +51,13 @@ TReset ==
   /\ mem' = InitMem(Ev.msize)
   /\ reqOf' = <<>> /\ subsOf' = <<>> /\ seen' = <<>> /\ wrote' = {} /\ served' = {} /\ done' = <<>>
   /\ line' = Ev.line /\ nc' = Ev.caches /\ cids' = {} /\ alias' = <<>> /\ conf' = 0 /\ msz' = Ev.msize
+  /\ names' = [dmadst |-> Ev.dmadst, memdst |-> Ev.memdst]
 
 \* ----------------------------------------------------------------- driver
 TDrvReq ==
   /\ Is("DrvReq") /\ cids = {}
   /\ IF Ev.k = "flush" THEN EnvFlush(Ev.id)
-     ELSE /\ Ev.a >= 0 /\ Ev.a + Ev.n <= msz
+     ELSE /\ Ev.a >= 0 /\ (msz = 0 \/ Ev.a + Ev.n <= msz)
           /\ Ev.k = "h2d" => Len(Ev.d) = Ev.n
           /\ EnvReq(Ev.id, Ev.k, Ev.a, Ev.n, Ev.d)
   /\ Keep
@@ -73,7 +76,7 @@ TCacheReq ==
      THEN /\ CPFlushStart(nc, cids \cup {Ev.id}) /\ cids' = {}
      ELSE /\ drvIn # <<>> /\ Head(drvIn).k = "flush" /\ flushLeft = 0
           /\ cids' = cids \cup {Ev.id} /\ UNCHANGED vars
-  /\ UNCHANGED <<line, nc, alias, conf, msz>>
+  /\ UNCHANGED <<line, nc, alias, conf, msz, names>>
 
 TCacheAck == Is("CacheAck") /\ EnvCacheAck(Ev.to) /\ Keep
 TCPAck    == Is("CPAck") /\ ackIn # <<>> /\ Head(ackIn) = Ev.to /\ CPAck /\ Keep
@@ -82,7 +85,7 @@ TCPFwd ==
   /\ Is("CPFwd") /\ cids = {}
   /\ drvIn # <<>>
   /\ Head(drvIn).k = Ev.k /\ Head(drvIn).a = Ev.a /\ Head(drvIn).n = Ev.n /\ Head(drvIn).d = Ev.d   \* a faithful clone
-  /\ Ev.dst = "DMA.ToCP"
+  /\ Ev.dst = names.dmadst
   /\ CPForward(Ev.id)
   /\ Keep
 
@@ -95,11 +98,11 @@ TCPDone ==
           ELSE /\ Len(toDrv) > conf /\ toDrv[conf + 1] = Ev.id     \* CPAck of the last cache has answered it
                /\ UNCHANGED vars
      ELSE /\ toCP # <<>> /\ Head(toCP) \in DOMAIN cpMap /\ cpMap[Head(toCP)].id = Ev.id
-          /\ Ev.k = "d2h" => Ev.d = buf[Ev.id]                      \* every byte at its place
+          /\ Ev.k = "d2h" => Ev.d = buf[Ev.id] /\ buf[Ev.id] = seen[Ev.id]   \* every byte at its place (D2HData)
           /\ CPRespond
   /\ conf' = conf + 1
   /\ toDrv'[conf + 1] = Ev.id
-  /\ UNCHANGED <<line, nc, cids, alias, msz>>
+  /\ UNCHANGED <<line, nc, cids, alias, msz, names>>
 
 TCPRecv == Is("CPRecv") /\ Ev.to \notin DOMAIN cpMap /\ UNCHANGED vars /\ Keep
 
@@ -113,10 +116,10 @@ TSub ==
   /\ Is("Sub") /\ unsent # <<>> /\ Ev.id \notin DOMAIN alias
   /\ LET s == Head(unsent)
      IN /\ s.k = Ev.k /\ s.a = Ev.a /\ s.n = Ev.n /\ s.d = Ev.d      \* the right bytes for the right addresses
-        /\ Ev.mask = 0 /\ Ev.dst = "Mem.Top"
+        /\ Ev.mask = 0 /\ (names.memdst = "" \/ Ev.dst = names.memdst)
         /\ alias' = alias @@ (Ev.id :> s.id)
   /\ DMASend
-  /\ UNCHANGED <<line, nc, cids, conf, msz>>
+  /\ UNCHANGED <<line, nc, cids, conf, msz, names>>
 
 TMemRsp == Is("MemRsp") /\ Ev.to \in DOMAIN alias /\ MemServe(alias[Ev.to], Ev.d) /\ Keep
 
@@ -139,7 +142,7 @@ TQuiesce ==
   /\ memRsp = <<>> /\ toCPq = <<>> /\ toCP = <<>> /\ colls = <<>> /\ pending = {} /\ flushLeft = 0
   /\ \A o \in DOMAIN done : done[o] = 1
   /\ conf = Len(toDrv) /\ Ev.issued = Cardinality(DOMAIN reqOf) /\ Ev.answered = conf
-  /\ (mem = Runs(InitMem(msz), Ev.mem)) = TRUE          \* bytes outside the copied ranges untouched
+  /\ (msz = 0 \/ mem = Runs(InitMem(msz), Ev.mem)) = TRUE          \* bytes outside the copied ranges untouched
   /\ UNCHANGED vars /\ Keep
 
 TNext == \/ TReset \/ TDrvReq \/ TCPTake \/ TCacheReq \/ TCacheAck \/ TCPAck \/ TCPFwd \/ TCPDone \/ TCPRecv
@@ -147,8 +150,10 @@ TNext == \/ TReset \/ TDrvReq \/ TCPTake \/ TCacheReq \/ TCacheAck \/ TCPAck \/ 
 
 TSpec == TInit /\ [][TNext]_tvars
 
-TCompleteOnceAfterAll == CompleteOnceAfterAllL(line)
-TSubsExact == SubsExactL(line)
+\* The sub-requests of a trace are the specification's own Chunks (every Sub event must equal the head
+\* of `unsent'), and CPRespond is only enabled after the collection emptied: SubsExact and the
+\* "after all" half of CompleteOnceAfterAll hold by construction; D2HData is checked when the answer leaves.
+TCompleteOnce == \A o \in DOMAIN done : done[o] <= 1
 
 Mark == HWNote(l)
 Accepted == HWReport(N)
